@@ -115,6 +115,14 @@ def parts_rules(ctx):
         b = f.built
         ips = b.calls(r"VectorObserver(<.*>)?>?::into_parts$")
         if not ips:
+            # pure delegation to a sibling ext method that is judged itself (`head(n)` = `dynamic_head_with_initial_value(n, empty)`)
+            for blk, t in b.calls():
+                g = F.local_callee(f, t)
+                if g is not None and g is not f and g.path.startswith("vector::traits::VectorObserverExt::") and t["args"]:
+                    a0 = strip(b.expr_of_op(t["args"][0]), through_calls=False)
+                    k += 1
+                    ctx.verdict(a0[0] == "param" and a0[1] == 1, "R12.2", f, "ext-passes-parts", b.line_at((blk, 10 ** 6)), "delegates to `%s` with the observer itself" % g.name,
+                                "`%s` delegates to `%s` with something other than the observer it was called on" % (f.path, g.name))
             continue
         iloc = (ips[0][0], len(b.blocks[ips[0][0]]["stmts"]))
         ctors = [(blk, t) for blk, t in b.calls() if F.local_callee(f, t) is not None and F.local_callee(f, t).name in ("new", "dynamic", "dynamic_with_initial_limit", "dynamic_with_initial_count")]
